@@ -1817,7 +1817,7 @@ class RecordTensor(ShapedTensor):
             start = _unwind_ptr(ptr, offset, recordsz)
             end = _unwind_ptr(ptr, offset - length, recordsz)
 
-            if start > end:
+            if start >= end:
                 return ein.rearrange(
                     torch.cat((data[start:, ...], data[:end, ...]), 0), "t ... -> ... t"
                 )
